@@ -65,6 +65,7 @@ FVal(e, rg) ==
     LET Ty == e.T  fn == e.fn  p == TMod(Ty)
         A == IF "a" \in DOMAIN e THEN rg[e.a].k ELSE <<>>
         Bv == IF "b" \in DOMAIN e THEN rg[e.b].k ELSE <<>>
+        hasOut == e.res = "some"                                     \* out / isz / eq row are logged only when the call produced a value
         logged == IF Ty = "Fq2" THEN DecFq2(e.out) ELSE FromBE(e.out)
     IN CASE fn = "zero" -> IF Ty = "Fq2" THEN E2!Zero ELSE <<>>
          [] fn = "one" -> IF Ty = "Fq2" THEN E2!One ELSE <<1>>
@@ -73,17 +74,17 @@ FVal(e, rg) ==
          [] fn = "interpret" -> BMod(FromBE(e.in), p)
          [] fn = "from_str" -> FromStrSpec(p, e.in)
          [] fn = "from_hash" -> FromHashSpec(e.in)
-         [] fn = "random" -> IF Canon(Ty, e.out) THEN logged ELSE NoVal
+         [] fn = "random" -> IF hasOut /\ Canon(Ty, e.out) THEN logged ELSE NoVal
          [] fn \in {"add", "sub", "mul"} -> Arith(Ty, fn, A, Bv)
          [] fn = "neg" -> FNegV(Ty, A)
          [] fn = "inv" -> IF Ty = "Fq2" THEN (IF A = E2!Zero THEN None ELSE E2!Inv(A))
                           ELSE (IF A = <<>> THEN None ELSE BModInvPrime(A, p))
          [] fn = "pow" -> BModPow(A, Bv, p)
          [] fn = "sqrt" -> IF Ty = "Fq2"
-                           THEN (IF ~E2!IsSquare(A) THEN None ELSE IF Canon2(e.out) /\ E2!Sqr(logged) = A THEN logged ELSE NoVal)
-                           ELSE (IF ~FQ!FIsQR(A) THEN None ELSE IF Canon("Fq", e.out) /\ FQ!FSqr(logged) = A THEN logged ELSE NoVal)
+                           THEN (IF ~E2!IsSquare(A) THEN None ELSE IF hasOut /\ Canon2(e.out) /\ E2!Sqr(logged) = A THEN logged ELSE NoVal)
+                           ELSE (IF ~FQ!FIsQR(A) THEN None ELSE IF hasOut /\ Canon("Fq", e.out) /\ FQ!FSqr(logged) = A THEN logged ELSE NoVal)
          [] fn = "set_bit" -> IF e.i < 256 THEN SetBitSpec(A, e.i, e.to)
-                              ELSE IF logged = A \/ (e.to /\ logged = BMod(BAdd(A, Pow2N(e.i)), R)) THEN logged ELSE NoVal
+                              ELSE IF hasOut /\ (logged = A \/ (e.to /\ logged = BMod(BAdd(A, Pow2N(e.i)), R))) THEN logged ELSE NoVal
          [] fn = "real" -> A[1]
          [] fn = "imaginary" -> A[2]
          [] fn = "new" -> << A, Bv >>
